@@ -7,7 +7,8 @@
        -> the pipeline on every record, the first `limit` entries     (Pipeline!LogResult)
        -> one printed line per entry in time order                    (Render)
    Anchors: cmd/docker-logql/query.go (queryCmd, renderResult), internal/dockerlog, internal/logql/logqlengine.
-   A case is [ctrs, sel, stages, start, end, limit, opts]; containers as in DockerSel with frames
+   A case is [ctrs, sel, stages, start, end, limit, opts (, since, metric)]; with `metric` the same log query is wrapped into
+   count_over_time(... [1m]): the command evaluates it, cannot print a matrix, fails and prints nothing.  Containers as in DockerSel with frames
    [typ, ts, msg, raw]; the window ends are whole seconds and every frame lies at least two seconds away from them
    (what happens ON the edges is C02's subject). *)
 EXTENDS Pipeline
@@ -30,8 +31,10 @@ RECURSIVE MergeRecs(_)
 MergeRecs(S) == IF S = {} THEN <<>>
                 ELSE LET m == CHOOSE r \in S : \A q \in S : SysTsLt(r.ts, q.ts) \/ (r.ts = q.ts /\ r.id <= q.id)
                      IN <<m>> \o MergeRecs(S \ {m})
+\* the window: --start and --end, or --end and --since (start = end - since); `since` is whole seconds, 0 when --start is given
+WStart(c) == IF Fld(c, "since", 0) > 0 THEN <<c.end[1] - c.since, 0>> ELSE c.start
 Merged(c) == LET sel == DS!Selected(c.ctrs, c.sel)
-                 all == UNION {{CtrRecords(c.ctrs, i, c.start, c.end)[k] : k \in DOMAIN CtrRecords(c.ctrs, i, c.start, c.end)} : i \in sel}
+                 all == UNION {{CtrRecords(c.ctrs, i, WStart(c), c.end)[k] : k \in DOMAIN CtrRecords(c.ctrs, i, WStart(c), c.end)} : i \in sel}
              IN MergeRecs(all)
 
 \* the entries the query returns (the selector was applied to containers: the engine has nothing left to prefilter)
@@ -43,10 +46,14 @@ Printed(c) == LET es == Entries(c) IN [k \in DOMAIN es |-> [ts |-> es[k].ts, msg
 \* assumptions on a case
 CaseWellFormed(c) == /\ \A i \in DOMAIN c.ctrs : DS!Unambiguous(c.ctrs[i])
                      /\ \A k \in DOMAIN c.sel : DS!MatcherWellFormed(c.sel[k])
-                     /\ \A k \in DOMAIN c.stages : StageWellFormed(c.stages[k]) /\ c.stages[k].t \in {"line", "label"}
+                     /\ \A k \in DOMAIN c.stages : StageWellFormed(c.stages[k]) /\ c.stages[k].t \in {"line", "label", "drop", "keep", "labelfmt", "linefmt"}
                      /\ UnambiguousText(c.stages)
-                     /\ c.start[2] = 0 /\ c.end[2] = 0
+                     \* every step of the pipeline lies inside the modelled grammar
+                     /\ \A k \in DOMAIN LogResult(<<>>, c.stages, Merged(c)) :
+                          LET e == LogResult(<<>>, c.stages, Merged(c))[k] IN ~e.open /\ ~e.lopen /\ e.vopen = {} /\ e.opt = {}
+                     /\ ~AnyOpen(<<>>, c.stages, Merged(c))
+                     /\ c.start[2] = 0 /\ c.end[2] = 0 /\ Fld(c, "since", 0) >= 0
                      /\ \A i \in DOMAIN c.ctrs : \A j \in DOMAIN c.ctrs[i].frames :
                           LET t == c.ctrs[i].frames[j].ts[1] IN
-                          (t >= c.start[1] + 2 /\ t <= c.end[1] - 2) \/ t <= c.start[1] - 2 \/ t >= c.end[1] + 2
+                          (t >= WStart(c)[1] + 2 /\ t <= c.end[1] - 2) \/ t <= WStart(c)[1] - 2 \/ t >= c.end[1] + 2
 =============================================================================
